@@ -63,8 +63,145 @@ impl Serialize for FailAfter {
     }
 }
 
+// ------------------------------------------------------------------------------------------
+// A payload type that covers the shapes of serde's data model: the frame is whatever the
+// serializer makes of the value, so "exactly one JSON document" has to hold for every shape.
+
+#[derive(Debug, Clone, Serialize)]
+struct UnitS;
+#[derive(Debug, Clone, Serialize)]
+struct NewS(i16);
+#[derive(Debug, Clone, Serialize)]
+struct TupS(u8, String);
+#[derive(Debug, Clone, Serialize)]
+struct EmptyS {}
+#[derive(Debug, Clone, Serialize)]
+#[serde(tag = "t", content = "c")]
+enum Adj {
+    A,
+    B { x: i32 },
+    C(String),
+}
+#[derive(Debug, Clone, Serialize)]
+#[serde(tag = "kind")]
+enum Internal {
+    P,
+    Q { y: bool },
+}
+#[derive(Debug, Clone, Serialize)]
+#[serde(untagged)]
+enum Untagged {
+    N(i32),
+    S { s: String },
+}
+#[derive(Debug, Clone, Serialize)]
+struct Flat {
+    k: i32,
+    #[serde(flatten)]
+    rest: BTreeMap<String, i32>,
+}
+#[derive(Debug, Clone, Serialize)]
+enum KeyEnum {
+    North,
+    South,
+}
+
+#[derive(Debug, Clone, Serialize)]
+enum Zoo {
+    Unit,
+    NewInt(i64),
+    NewStr(String),
+    Tup(i32, String),
+    EmptyTup(),
+    Struct { a: Box<Zoo>, b: Option<Box<Zoo>> },
+    EmptyStruct {},
+    Seq(Vec<Zoo>),
+    Map(BTreeMap<String, Zoo>),
+    IntMap(BTreeMap<i32, Zoo>),
+    CharMap(BTreeMap<char, bool>),
+    EnumMap(BTreeMap<u8, KeyEnum>),
+    Opt(Option<Box<Zoo>>),
+    Bool(bool),
+    U(u64),
+    I(i128),
+    F(f64),
+    Ch(char),
+    UnitStruct(UnitS),
+    NewtypeStruct(NewS),
+    TupleStruct(TupS),
+    EmptyStructS(EmptyS),
+    Tuple((i32, bool, String)),
+    Unit0(()),
+    #[serde(rename = "re-named")]
+    Renamed {
+        #[serde(rename = "x-y")]
+        x: i32,
+        #[serde(skip_serializing_if = "Option::is_none")]
+        skipped: Option<i32>,
+    },
+    Adj(Adj),
+    Internal(Internal),
+    Untagged(Untagged),
+    Flat(Flat),
+    Nested(Vec<Vec<Option<()>>>),
+}
+
+#[derive(Debug, Clone, Serialize)]
+struct ZooP {
+    v: Zoo,
+}
+#[derive(Debug, Serialize)]
+struct ZooCall {
+    method: &'static str,
+    parameters: ZooP,
+}
+#[derive(Debug, Serialize)]
+struct ZooErr {
+    error: &'static str,
+    parameters: ZooP,
+}
+
+fn zoo_str(t: &mut Tape) -> String {
+    ["", "a", "q\"uote", "back\\slash", "nul\u{0}", "tab\t", "\u{e9}\u{2013}\u{1f600}", "/", "long string without anything special in it"][t.draw(9)].to_string()
+}
+
+fn gen_zoo(t: &mut Tape, depth: usize) -> Zoo {
+    let leaf_only = depth == 0;
+    let pick = if leaf_only { 12 + t.draw(19) } else { t.draw(31) };
+    let child = |t: &mut Tape| Box::new(gen_zoo(t, depth - 1));
+    match pick {
+        0 => Zoo::Struct { a: child(t), b: if t.draw(2) == 0 { None } else { Some(child(t)) } },
+        1 => Zoo::Seq((0..t.draw(4)).map(|_| gen_zoo(t, depth - 1)).collect()),
+        2 => Zoo::Map((0..t.draw(3)).map(|i| (format!("k{i}{}", zoo_str(t)), gen_zoo(t, depth - 1))).collect()),
+        3 => Zoo::IntMap((0..t.draw(3)).map(|i| (i as i32 * 7 - 3, gen_zoo(t, depth - 1))).collect()),
+        4 => Zoo::Opt(if t.draw(2) == 0 { None } else { Some(child(t)) }),
+        5..=11 => gen_zoo(t, 0),
+        12 => Zoo::Unit,
+        13 => Zoo::NewInt([0, -1, i64::MIN, i64::MAX, 42][t.draw(5)]),
+        14 => Zoo::NewStr(zoo_str(t)),
+        15 => Zoo::Tup(t.draw(100) as i32 - 50, zoo_str(t)),
+        16 => Zoo::EmptyTup(),
+        17 => Zoo::EmptyStruct {},
+        18 => Zoo::CharMap([('a', true), ('"', false), ('\u{e9}', true)].into_iter().take(t.draw(4)).collect()),
+        19 => Zoo::EnumMap([(1u8, KeyEnum::North), (200u8, KeyEnum::South)].into_iter().take(t.draw(3)).collect()),
+        20 => Zoo::Bool(t.draw(2) == 1),
+        21 => Zoo::U([0, 1, u64::MAX][t.draw(3)]),
+        22 => Zoo::I([0, -5, i64::MIN as i128, u64::MAX as i128][t.draw(4)]),
+        23 => Zoo::F([0.0, -1.25, 0.5, 1e10, 3.0, 1.0e-7][t.draw(6)]),
+        24 => Zoo::Ch(['x', '"', '\\', '\u{0}', '\u{e9}', '\u{1f600}'][t.draw(6)]),
+        25 => [Zoo::UnitStruct(UnitS), Zoo::NewtypeStruct(NewS(-7)), Zoo::TupleStruct(TupS(9, zoo_str(t))), Zoo::EmptyStructS(EmptyS {}), Zoo::Unit0(())][t.draw(5)].clone(),
+        26 => Zoo::Tuple((t.draw(10) as i32, t.draw(2) == 1, zoo_str(t))),
+        27 => Zoo::Renamed { x: t.draw(10) as i32, skipped: if t.draw(2) == 0 { None } else { Some(3) } },
+        28 => [Zoo::Adj(Adj::A), Zoo::Adj(Adj::B { x: 4 }), Zoo::Adj(Adj::C(zoo_str(t))), Zoo::Internal(Internal::P), Zoo::Internal(Internal::Q { y: true }), Zoo::Untagged(Untagged::N(5)), Zoo::Untagged(Untagged::S { s: zoo_str(t) })][t.draw(7)].clone(),
+        29 => Zoo::Flat(Flat { k: 1, rest: (0..t.draw(3)).map(|i| (format!("f{i}"), i as i32)).collect() }),
+        _ => Zoo::Nested((0..t.draw(3)).map(|i| (0..i + t.draw(2)).map(|j| if j % 2 == 0 { None } else { Some(()) }).collect()).collect()),
+    }
+}
+
 #[derive(Debug, Clone)]
 enum Msg {
+    /// A value of the shape zoo, sent as a call (0), a reply (1) or an error (2).
+    Zoo { v: Zoo, as_kind: u8 },
     Call { len: usize, n: u32, oneway: bool, more: bool },
     Reply { len: usize, id: u32, continues: Option<bool> },
     ErrBad { len: usize, code: i32 },
@@ -106,6 +243,14 @@ impl Msg {
                 json!({"error": "org.example.Bad", "parameters": {"code": code, "why": padstr(*len, *code as u32)}})
             }
             Msg::ErrGone => json!({"error": "org.example.Gone"}),
+            Msg::Zoo { v, as_kind } => {
+                let p = serde_json::to_value(ZooP { v: v.clone() }).expect("serde_json takes every zoo value");
+                match as_kind {
+                    0 => json!({"method": "org.example.Zoo", "parameters": p}),
+                    1 => json!({"parameters": p}),
+                    _ => json!({"error": "org.example.ZooErr", "parameters": p}),
+                }
+            }
             _ => Value::Null,
         }
     }
@@ -128,7 +273,7 @@ impl Msg {
     fn set_len(&mut self, l: usize) {
         match self {
             Msg::Call { len, .. } | Msg::Reply { len, .. } | Msg::ErrBad { len, .. } | Msg::BadKey { len } | Msg::FailAfter { len, .. } => *len = l,
-            Msg::ErrGone => {}
+            Msg::ErrGone | Msg::Zoo { .. } => {}
         }
     }
 }
@@ -168,7 +313,11 @@ impl Steer {
 }
 
 fn gen_good(t: &mut Tape) -> Msg {
-    match t.draw(4) {
+    match t.draw(5) {
+        4 => {
+            let depth = t.draw(4);
+            Msg::Zoo { v: gen_zoo(t, depth), as_kind: t.draw(3) as u8 }
+        }
         0 => Msg::Call { len: 0, n: t.draw(1000) as u32, oneway: t.draw(4) == 3, more: t.draw(4) == 3 },
         1 => Msg::Reply { len: 0, id: t.draw(1000) as u32, continues: [None, Some(true), Some(false)][t.draw(3)] },
         2 => Msg::ErrBad { len: 0, code: t.draw(100) as i32 },
@@ -333,6 +482,15 @@ async fn do_enqueue_or_send(conn: &mut Connection<crate::world::SimSocket>, m: &
         }
         Msg::ErrBad { len, code } => conn.send_error(&ErrOut::Bad { code: *code, why: padstr(*len, *code as u32) }).await,
         Msg::ErrGone => conn.send_error(&ErrOut::Gone).await,
+        Msg::Zoo { v, as_kind } => {
+            let p = ZooP { v: v.clone() };
+            match (as_kind, send) {
+                (0, true) => conn.send_call(&Call::new(ZooCall { method: "org.example.Zoo", parameters: p })).await,
+                (0, false) => conn.enqueue_call(&Call::new(ZooCall { method: "org.example.Zoo", parameters: p })),
+                (1, _) => conn.send_reply(&Reply::new(Some(p))).await,
+                _ => conn.send_error(&ZooErr { error: "org.example.ZooErr", parameters: p }).await,
+            }
+        }
         Msg::BadKey { len } => {
             let mut m = BTreeMap::new();
             m.insert((1, 2), 3);
@@ -419,6 +577,7 @@ fn short(m: &Msg) -> String {
     match m {
         Msg::BadKey { len } => format!("BadKey(lead {len} bytes) [refused: tuple map key]"),
         Msg::FailAfter { k, len } => format!("FailAfter(k={k}, pad {len} bytes) [refused by the value]"),
+        Msg::Zoo { v, as_kind } => format!("Zoo as {} {}", ["call", "reply", "error"][*as_kind as usize % 3], serde_json::to_string(v).unwrap_or_default()),
         other => format!("{} ({} wire bytes)", format!("{other:?}").split(' ').next().unwrap_or(""), other.wire_len()),
     }
 }
@@ -507,13 +666,16 @@ impl Prop for Outbound {
                         Op::Enqueue(m) => match m {
                             // only calls can be enqueued through the public API; other message
                             // kinds are sent
-                            Msg::Call { .. } | Msg::BadKey { .. } | Msg::FailAfter { .. } => {
+                            Msg::Call { .. } | Msg::BadKey { .. } | Msg::FailAfter { .. } | Msg::Zoo { as_kind: 0, .. } => {
                                 (Some(do_enqueue_or_send(&mut conn, m, false).await), false, m.is_bad(), Some(m))
                             }
                             _ => (cancellable(&world2, do_enqueue_or_send(&mut conn, m, true)).await, true, m.is_bad(), Some(m)),
                         },
                         Op::Send(m) => (cancellable(&world2, do_enqueue_or_send(&mut conn, m, true)).await, true, m.is_bad(), Some(m)),
                     };
+                    if let Some(Msg::Zoo { .. }) = msg {
+                        world2.borrow_mut().stat("payload.shape_zoo_messages");
+                    }
                     // links of a chain that were accepted are enqueued whatever happens to the rest
                     pending.extend(chain_accepted);
                     let fail = |class: &str, msg: String| {
